@@ -77,10 +77,13 @@ def kindOf (c : Cfg) : Spec.Kind :=
 def oracleFor (prop : String) (c : Cfg) (t : Spec.Trace) : Option Bool :=
   match prop with
   | "C08" => some (Spec.noPanic t)
-  | "C10" => some (Spec.oracleC10 (kindOf c) t)
+  | "C10" => some (Spec.oracleC10 (kindOf c) c.params.weigh t)
   | "C01" => some (Spec.oracleC01 (kindOf c) t)
   | "C05" => some (Spec.oracleC05 (kindOf c) c.ttl t)
   | "C06" => some (Spec.oracleC06 (kindOf c) c.tti t)
+  | "C07" => some (Spec.oracleC07 (kindOf c) t)
+  | "C16" => some (Spec.oracleC16 (kindOf c) c.ttl c.tti t)
+  | "C04" => some (Spec.oracleC04 (kindOf c) c.cap t)
   | _ => none
 
 structure Case where
